@@ -1,4 +1,4 @@
-import BreezyVerif.Lemmas.C27
+import BreezyVerif.Lemmas.C27Orphan
 /-!
 C27 — lock operations leave recoverable state at every crash point.
 
@@ -91,48 +91,87 @@ theorem corrupt_info_break (s : Sys) (i : Nat) (t : Nat) (hheld : s.held = some 
   simp [breakCorruptEvs, acquireEvs, Sys.run, Sys.step, hal, hidle, hnh, hheld, startOp, lstep, peekDir,
     Locker.done]
 
-/-- **A failed acquisition does not leave the lock held by the failing process (partial).**  In every reachable
-state: if the lock on disk carries locker `i`'s info, then `i` believes it holds the lock, or is just about to
-confirm it (`aConfirm`), or — the missing part — a transport error hit `i`'s confirming `peek` right after
-its rename succeeded (`orphan i`); see `failed_attempt_witness`. -/
-theorem failed_attempt_not_held_partial (cfg : Nat → Cfg) (h0 : Option Dir) (evs : List Ev) (i : Nat)
-    (h : ownerOf h0 ≠ some i) (ho : ownerOf ((Sys.init cfg h0).run evs).held = some i) :
-    (((Sys.init cfg h0).run evs).lk i).held = true ∨ (((Sys.init cfg h0).run evs).lk i).pc = .aConfirm ∨
-      ((Sys.init cfg h0).run evs).orphan i = true := by
-  have inv : OInv i ((Sys.init cfg h0).run evs) :=
-    OInv.run ⟨PendOk.init cfg h0, fun ho => absurd ho h⟩ evs
-  rcases inv.own ho with h1 | h1 | h1
-  · exact Or.inl h1
-  · exact Or.inr (Or.inr h1)
-  · exact Or.inr (Or.inl h1.1)
+/-- **A failed acquisition does not leave the lock held by the failing process (partial).**  In every
+reachable state (all interleavings, crashes, faults, breaks, steals): if the lock on disk carries locker `i`'s
+nonce with serial `n`, then `i` believes it holds the lock, or is just about to confirm exactly this nonce
+(`aConfirm`), or — the missing part — a transport error hit the confirming `peek` of exactly the attempt with
+serial `n`, right after its rename succeeded (`n ∈ orphanSerials`; see `failed_attempt_witness`).  The exception
+is tied to the nonce on disk: it says nothing about other attempts of the same locker. -/
+theorem failed_attempt_not_held_partial (cfg : Nat → Cfg) (h0 : Option Dir) (evs : List Ev) (i n : Nat)
+    (h : ownerOf h0 ≠ some i) (ho : ((Sys.init cfg h0).run evs).held = okDir ⟨i, n⟩) :
+    (((Sys.init cfg h0).run evs).lk i).held = true ∨
+      ((((Sys.init cfg h0).run evs).lk i).pc = .aConfirm ∧ n = (((Sys.init cfg h0).run evs).lk i).nonce) ∨
+      n ∈ orphanSerials (Sys.init cfg h0) evs i := by
+  have inv := (NInv.init cfg h0 i h).runG evs
+  rw [runG_fst] at inv
+  exact inv.own n ho
 
-/-- non-vacuity: the lock on disk carries locker 0's info right after its rename (second disjunct), and after
-its confirming peek (first disjunct); neither run involves a fault -/
+/-- the serial on disk is never ahead of its owner's attempt counter -/
+theorem disk_serial_le_current (cfg : Nat → Cfg) (h0 : Option Dir) (evs : List Ev) (i n : Nat)
+    (h : ownerOf h0 ≠ some i) (ho : ((Sys.init cfg h0).run evs).held = okDir ⟨i, n⟩) :
+    n ≤ (((Sys.init cfg h0).run evs).lk i).nonce := by
+  have inv := (NInv.init cfg h0 i h).runG evs
+  rw [runG_fst] at inv
+  exact inv.le n ho
+
+/-- **The latest attempt leaves nothing behind unless its own confirming peek failed**: a locker that does not
+believe it holds the lock and is not about to confirm does not find its current nonce on disk, unless a fault
+hit the confirming peek of this very attempt.  In particular a later attempt (fresh serial) that fails by
+contention, by a fault at mkdir / put / rename / cleanup or inside a steal's `force_break` leaves no lock of
+its own, whatever happened to earlier attempts. -/
+theorem latest_attempt_leaves_no_nonce (cfg : Nat → Cfg) (h0 : Option Dir) (evs : List Ev) (i : Nat)
+    (h : ownerOf h0 ≠ some i)
+    (hflag : (((Sys.init cfg h0).run evs).lk i).held = false)
+    (hpc : (((Sys.init cfg h0).run evs).lk i).pc ≠ .aConfirm)
+    (hno : (((Sys.init cfg h0).run evs).lk i).nonce ∉ orphanSerials (Sys.init cfg h0) evs i) :
+    ((Sys.init cfg h0).run evs).held ≠ okDir ⟨i, (((Sys.init cfg h0).run evs).lk i).nonce⟩ := by
+  intro ho
+  rcases failed_attempt_not_held_partial cfg h0 evs i _ h ho with h1 | ⟨h1, _⟩ | h1
+  · rw [hflag] at h1; cases h1
+  · exact hpc h1
+  · exact hno h1
+
+/-- a serial is orphaned only by a fault injected into the confirming peek of a live locker whose current
+serial it is -/
+theorem orphan_serial_origin (s : Sys) (evs : List Ev) (e : Ev) (i n : Nat)
+    (h : n ∈ orphanSerials s (evs ++ [e]) i) :
+    n ∈ orphanSerials s evs i ∨
+      (∃ k, e = .fault i k ∧ (s.run evs).crashed i = false ∧ ((s.run evs).lk i).pc = .aConfirm ∧
+        ((s.run evs).lk i).nonce = n) := by
+  unfold orphanSerials at h ⊢
+  rw [runG_append] at h
+  simp only [runG] at h
+  have := orphanStep_origin _ _ e i n h
+  rw [runG_fst] at this
+  exact this
+
+/-- non-vacuity: (a) the lock on disk carries locker 0's nonce right after its rename (second disjunct) and after
+its confirming peek (first disjunct), no fault involved; (b) after a fault at the confirming peek of attempt 1
+the serial 1 is orphaned and on disk (third disjunct); locker 2 breaks that lock; locker 0's second attempt
+(serial 2) then loses the race against locker 2 and fails by contention: its nonce is not on disk and serial 2
+is not orphaned (`latest_attempt_leaves_no_nonce` applies) -/
 example :
     let cfg : Nat → Cfg := fun _ => ⟨1, 1, false⟩
     let s3 := (Sys.init cfg).run [.start 0 .attempt, .step 0, .step 0, .step 0]
     let s4 := s3.run [.step 0]
-    ownerOf s3.held = some 0 ∧ (s3.lk 0).pc = .aConfirm ∧ (s3.lk 0).held = false ∧
-      ownerOf s4.held = some 0 ∧ (s4.lk 0).held = true ∧ s4.orphan 0 = false := by
+    s3.held = okDir ⟨0, 1⟩ ∧ (s3.lk 0).pc = .aConfirm ∧ (s3.lk 0).held = false ∧ (s3.lk 0).nonce = 1 ∧
+      s4.held = okDir ⟨0, 1⟩ ∧ (s4.lk 0).held = true ∧
+      orphanSerials (Sys.init cfg) [.start 0 .attempt, .step 0, .step 0, .step 0, .step 0] 0 = [] := by
   decide +kernel
 
-/-- the `orphan` flag is raised only by a fault injected into a confirming peek -/
-theorem orphan_only_by_fault_at_confirm (s : Sys) (e : Ev) (i : Nat) (h : (s.step e).orphan i = true) :
-    s.orphan i = true ∨ (∃ k, e = .fault i k ∧ (s.lk i).pc = .aConfirm) := by
-  cases e with
-  | crash a => exact Or.inl h
-  | start a op => simp only [Sys.step] at h; split at h <;> (try split at h) <;> exact Or.inl h
-  | step a => simp only [Sys.step] at h; split at h <;> exact Or.inl h
-  | fault a k =>
-    simp only [Sys.step] at h
-    split at h
-    · exact Or.inl h
-    · split at h
-      · rename_i hpc
-        by_cases hi : i = a
-        · subst hi; exact Or.inr ⟨k, rfl, hpc⟩
-        · simp [upd, hi] at h; exact Or.inl h
-      · exact Or.inl h
+example :
+    let cfg : Nat → Cfg := fun _ => ⟨1, 1, false⟩
+    let evs1 : List Ev := [.start 0 .attempt, .step 0, .step 0, .step 0, .fault 0 .T]
+    let evs2 : List Ev := evs1 ++ [.start 2 .brk, .step 2, .step 2, .step 2, .step 2, .step 2, .step 2,
+      .start 2 .attempt, .step 2, .step 2, .step 2, .step 2,
+      .start 0 .attempt, .step 0, .step 0, .step 0, .step 0, .step 0, .step 0]
+    let s1 := (Sys.init cfg).run evs1
+    let s2 := (Sys.init cfg).run evs2
+    s1.held = okDir ⟨0, 1⟩ ∧ (s1.lk 0).held = false ∧ (s1.lk 0).pc = .idle ∧
+      orphanSerials (Sys.init cfg) evs1 0 = [1] ∧
+      (s2.lk 0).held = false ∧ (s2.lk 0).pc = .idle ∧ (s2.lk 0).nonce = 2 ∧ (s2.lk 0).last = .contention ∧
+      orphanSerials (Sys.init cfg) evs2 0 = [1] ∧ s2.held = okDir ⟨2, 1⟩ := by
+  decide +kernel
 
 /-- **Witness (finding).**  Locker 0 attempts the free lock; its rename succeeds; the confirming `peek`
 raises a transport error: `attempt_lock` fails, `_lock_held` is false, and the lock on disk stays held with
@@ -183,6 +222,66 @@ example :
     let evs := [Ev.start 0 .attempt] ++ List.replicate 2 (Ev.step 0) ++ [Ev.fault 0 .P] ++ List.replicate 4 (Ev.step 0)
     (s.lk 0).pc = .idle ∧ (s.cfg 0).steal = false ∧ (s.run evs).held = s.held ∧
       ((s.run evs).lk 0).last = .contention ∧ ((s.run evs).lk 0).pend = none ∧ ((s.run evs).lk 0).junk = [] := by
+  decide +kernel
+
+/-! ## `held/` without `info`: the one unrecoverable state -/
+
+/-- **`held/` without an info file is stuck for ever.**  From a lock directory whose `held/` exists but
+contains no `info` (it is never *reached*: `crash_recoverable`), whatever any number of lockers do —
+attempts, breaks, unlocks, with any faults and crashes — `held/` stays as it is and nobody ever holds the
+lock: `peek()` reports "not held" while every rename into place fails. -/
+theorem heldNoInfo_unrecoverable (cfg : Nat → Cfg) (evs : List Ev) (j : Nat) :
+    ((Sys.init cfg (some none)).run evs).held = some none ∧
+      (((Sys.init cfg (some none)).run evs).lk j).held = false := by
+  have hq : Quiet (Sys.init cfg (some none)) := fun j => ⟨rfl, by simp [Sys.init]⟩
+  obtain ⟨h1, _, h3⟩ := stuck_run (s := Sys.init cfg (some none)) rfl hq evs
+  exact ⟨h1, by rw [h3 j]; rfl⟩
+
+/-- what the two recovery procedures answer there: a complete attempt of any idle live locker ends in
+`LockContention` with its pending directory cleaned up, and `break_lock` sees nothing to break -/
+theorem heldNoInfo_witness (s : Sys) (i : Nat) (hheld : s.held = some none) (hidle : (s.lk i).pc = .idle)
+    (hnh : (s.lk i).held = false) (hal : s.crashed i = false) :
+    let sa := s.run ([Ev.start i .attempt] ++ List.replicate 6 (Ev.step i))
+    let sb := s.run [Ev.start i .brk, Ev.step i]
+    sa.held = some none ∧ (sa.lk i).pc = .idle ∧ (sa.lk i).last = .contention ∧ (sa.lk i).held = false ∧
+      (sa.lk i).pend = none ∧
+      sb.held = some none ∧ (sb.lk i).pc = .idle ∧ (sb.lk i).last = .nothing := by
+  simp [Sys.run, Sys.step, hal, hidle, hnh, hheld, startOp, lstep, peekDir, Locker.done, dropPend]
+
+example : recoverable (some none) = false ∧ classify (some none) = .heldNoInfo := by decide
+
+/-! ## a failing *stealing* attempt -/
+
+/-- **A fault at any call inside the `force_break` of a stealing attempt** (`locks.steal_dead`, the holder is
+known dead; `k` = index of the failing call: peek, rename away, read, delete, rmdir): the attempt cleans its
+pending directory up and fails, `_lock_held` stays false, and the lock on disk is not the failing locker's — it
+is still the dead holder's when the fault came before the rename away, and free afterwards. -/
+theorem failed_steal_solo (s : Sys) (i : Nat) (x : Nonce) (fk : FaultKind) (k : Nat) (hk : k < 5)
+    (hheld : s.held = okDir x) (hx : x.owner ≠ i)
+    (hidle : (s.lk i).pc = .idle) (hnh : (s.lk i).held = false) (hal : s.crashed i = false)
+    (hsteal : (s.cfg i).steal = true) (hdead : stealable s.cfg s.crashed i x = true) :
+    let evs := [Ev.start i .attempt] ++ List.replicate 4 (Ev.step i) ++ List.replicate k (Ev.step i) ++
+      [Ev.fault i fk] ++ List.replicate 2 (Ev.step i)
+    ((s.run evs).lk i).held = false ∧ ((s.run evs).lk i).pc = .idle ∧ ((s.run evs).lk i).pend = none ∧
+      ownerOf (s.run evs).held ≠ some i ∧
+      (k ≤ 1 → (s.run evs).held = s.held) ∧ (2 ≤ k → (s.run evs).held = none) := by
+  have hk' : k = 0 ∨ k = 1 ∨ k = 2 ∨ k = 3 ∨ k = 4 := by omega
+  simp only [okDir] at hheld
+  rcases hk' with rfl | rfl | rfl | rfl | rfl <;>
+    simp [Sys.run, Sys.step, hal, hidle, hnh, hheld, hsteal, hdead, hx, startOp, lstep, lfault, peekDir,
+      Locker.done, dropPend, dropTmp, breakErr, ownerOf]
+
+/-- non-vacuity of `failed_steal_solo`: locker 1 took the lock and died; locker 0 (same host and user,
+`locks.steal_dead`) steals; the rename away of the dead holder's lock succeeded, the read of the broken
+directory raises -/
+example :
+    let cfg : Nat → Cfg := fun j => ⟨1, 1, j == 0⟩
+    let s := (Sys.init cfg).run [.start 1 .attempt, .step 1, .step 1, .step 1, .step 1, .crash 1]
+    let evs := [Ev.start 0 .attempt] ++ List.replicate 4 (Ev.step 0) ++ List.replicate 2 (Ev.step 0) ++
+      [Ev.fault 0 .T] ++ List.replicate 2 (Ev.step 0)
+    s.held = okDir ⟨1, 1⟩ ∧ (s.lk 0).pc = .idle ∧ (s.cfg 0).steal = true ∧
+      stealable s.cfg s.crashed 0 ⟨1, 1⟩ = true ∧
+      (s.run evs).held = none ∧ ((s.run evs).lk 0).last = .faultT ∧ ((s.run evs).lk 0).junk = [(.B, some (.ok ⟨1, 1⟩))] := by
   decide +kernel
 
 end BreezyVerif.C27
